@@ -182,6 +182,9 @@ class C02Hook:
         dup = single_state_counts(w.mdib)
         if dup:
             self.ctx.fail('more-than-one-single-state', f'descriptors with several single states: {dup}', {'history': list(history), 'mdib': w.mdib_path})
+        for sig, detail in info.get('isolation_failures', []):
+            if sig == 'rejected-call-changed-transaction':
+                self.ctx.count('note:' + sig)
         if info['outcome'] == 'commit-failed':
             # no clause of C02 by itself; C03 owns it. It is recorded so that the distribution is visible.
             self.ctx.count('commit-failed:' + str(info['error'])[:60])
